@@ -516,6 +516,44 @@ const vreYang2 = `module vrpresence {
       leaf admin-state { type string; default "enable"; }
     }
   }
+  container top {
+    choice outer {
+      case a {
+        container ca {
+          choice inner {
+            leaf x { type string; }
+            leaf y { type string; }
+          }
+          leaf plain { type string; }
+        }
+      }
+      case b {
+        leaf bl { type string; }
+      }
+    }
+  }
+}
+`
+
+// a second module that augments nodes of its own namespace into the first one
+const vreYang3 = `module vraug {
+  yang-version 1.1;
+  namespace "urn:verif/aug";
+  prefix vra;
+  import vrpresence { prefix vrp; }
+
+  augment "/vrp:system" {
+    leaf sysextra { type string; }
+    leaf sysflag { type empty; }
+  }
+  augment "/vrp:interface" {
+    leaf extra { type string; }
+    leaf flag { type empty; }
+    leaf-list tags { type string; }
+    container auc {
+      leaf v { type string; }
+    }
+  }
 }
 `
 
@@ -524,6 +562,9 @@ const vreYang2 = `module vrpresence {
 func vreSchema2(t *testing.T, mockCtrl *gomock.Controller) *mockschemaclientbound.MockSchemaClientBound {
 	dir := t.TempDir()
 	if err := os.WriteFile(filepath.Join(dir, "vrpresence.yang"), []byte(vreYang2), 0o644); err != nil {
+		t.Fatal(err)
+	}
+	if err := os.WriteFile(filepath.Join(dir, "vraug.yang"), []byte(vreYang3), 0o644); err != nil {
 		t.Fatal(err)
 	}
 	sc := &sConfig.SchemaConfig{Name: "vrpresence", Vendor: "verif", Version: "v0.0.0", Files: []string{dir}}
@@ -651,6 +692,15 @@ func vreRun(t *testing.T, ctx context.Context, scb *mockschemaclientbound.MockSc
 				continue
 			}
 			xin := fmt.Sprintf("%s,honorNamespace=%v,operationWithNamespace=%v,useOperationRemove=%v", in, honorNs, opNs, useRemove)
+			if honorNs {
+				for _, w := range vreCheckNamespaces(ctx, scb, &doc.Element) {
+					clause := "namespace_of_the_schema_node"
+					if k := vreKnownNamespace(&doc.Element, w); k != "" {
+						clause = k + ".known"
+					}
+					report(fnX, clause, xin, w)
+				}
+			}
 			bad, known := vreCompare(ref, vreFromXML(&doc.Element, listKeys, opNs, useRemove), identity, true, onlyNew)
 			for _, w := range bad {
 				report(fnX, "cross_encoding", xin, w)
@@ -664,6 +714,52 @@ func vreRun(t *testing.T, ctx context.Context, scb *mockschemaclientbound.MockSc
 			}
 		}
 	}
+}
+
+// vreCheckNamespaces: under XML namespace scoping every element resolves to the namespace of its schema node
+func vreCheckNamespaces(ctx context.Context, scb *mockschemaclientbound.MockSchemaClientBound, doc *etree.Element) []string {
+	var out []string
+	var walk func(e *etree.Element, elems []*sdcpb.PathElem, ip string)
+	walk = func(e *etree.Element, elems []*sdcpb.PathElem, ip string) {
+		for _, c := range e.ChildElements() {
+			if c.Tag == "" {
+				continue
+			}
+			cel := append(append([]*sdcpb.PathElem{}, elems...), &sdcpb.PathElem{Name: c.Tag})
+			rsp, err := scb.GetSchemaSdcpbPath(ctx, &sdcpb.Path{Elem: cel})
+			if err != nil {
+				out = append(out, fmt.Sprintf("%s/%s: no schema node (%v)", ip, c.Tag, err))
+				continue
+			}
+			want := utils.GetNamespaceFromGetSchema(rsp.GetSchema())
+			if got := c.NamespaceURI(); got != want {
+				out = append(out, fmt.Sprintf("%s/%s resolves to namespace %q, its schema node lives in %q", ip, c.Tag, got, want))
+			}
+			walk(c, cel, ip+"/"+c.Tag)
+		}
+	}
+	walk(doc, nil, "")
+	return out
+}
+
+// vreKnownNamespace: the namespace problems listed as known findings, both pinned by golden strings of TestToXMLTable:
+// a leaf deleted at the root level, and a leaf of type empty (an element without text, attributes or children), carry no xmlns
+func vreKnownNamespace(doc *etree.Element, why string) string {
+	path := strings.SplitN(why, " resolves", 2)[0]
+	segs := strings.Split(strings.TrimPrefix(path, "/"), "/")
+	e := doc
+	for _, sg := range segs {
+		if e = e.SelectElement(sg); e == nil {
+			return ""
+		}
+	}
+	if _, _, del := vreOperation(e); del && len(segs) == 1 {
+		return "namespace_of_a_leaf_deleted_at_the_root_level"
+	}
+	if len(e.Attr) == 0 && len(e.ChildElements()) == 0 && e.Text() == "" {
+		return "namespace_of_a_leaf_of_type_empty"
+	}
+	return ""
 }
 
 func TestVerifReplayEncodings(t *testing.T) {
@@ -827,9 +923,154 @@ func TestVerifReplayEncodings(t *testing.T) {
 			}
 		}
 		vreRun(t, ctx, scb, mk(0), mk(mask), nil, nil, "schema=presence,edits="+strings.Join(names, "+"), report, &nJ, &nX, &nP)
+		// nodes a second module augments into the plain container and into the list entries: added, changed, given up
+		if mask == 0 || mask == 4 || mask == 8 {
+			aug := func(gen int) []*sdcpb.Update {
+				var out []*sdcpb.Update
+				if gen == 0 {
+					return out
+				}
+				str := func(x string) *sdcpb.TypedValue {
+					return &sdcpb.TypedValue{Value: &sdcpb.TypedValue_StringVal{StringVal: x}}
+				}
+				tags := []*sdcpb.TypedValue{str("t1"), str("t2")}
+				if gen == 2 {
+					tags = []*sdcpb.TypedValue{str("t1"), str("t3")}
+				}
+				for _, x := range []struct {
+					p []string
+					v *sdcpb.TypedValue
+				}{
+					{[]string{"system", "sysextra"}, str(fmt.Sprintf("s%d", gen))},
+					{[]string{"interface", "eth0", "extra"}, str(fmt.Sprintf("e%d", gen))},
+					{[]string{"interface", "eth0", "tags"}, &sdcpb.TypedValue{Value: &sdcpb.TypedValue_LeaflistVal{LeaflistVal: &sdcpb.ScalarArray{Element: tags}}}},
+					{[]string{"interface", "eth0", "auc", "v"}, str(fmt.Sprintf("v%d", gen))},
+					{[]string{"system", "sysflag"}, &sdcpb.TypedValue{Value: &sdcpb.TypedValue_EmptyVal{}}},
+					{[]string{"interface", "eth0", "flag"}, &sdcpb.TypedValue{Value: &sdcpb.TypedValue_EmptyVal{}}},
+				} {
+					sp, err := scb.ToPath(ctx, x.p)
+					if err != nil {
+						t.Fatal(err)
+					}
+					out = append(out, &sdcpb.Update{Path: sp, Value: x.v})
+				}
+				return out
+			}
+			for _, g := range [][2]int{{0, 1}, {1, 2}, {1, 0}, {1, 1}} {
+				label := fmt.Sprintf("schema=presence+augmenting module,edits=%s,augmented nodes=%s", strings.Join(names, "+"),
+					map[[2]int]string{{0, 1}: "added", {1, 2}: "changed", {1, 0}: "given up", {1, 1}: "kept"}[g])
+				vreRun(t, ctx, scb, append(mk(0), aug(g[0])...), append(mk(mask), aug(g[1])...), nil, nil, label, report, &nJ, &nX, &nP)
+			}
+		}
 		mockCtrl.Finish()
 	}
 	fmt.Printf("REPLAY-CASES fn=%s n=%d\n", fnJ, nJ)
 	fmt.Printf("REPLAY-CASES fn=%s n=%d\n", fnX, nX)
 	fmt.Printf("REPLAY-CASES fn=%s n=%d\n", fnP, nP)
+}
+
+// TestVerifReplayNestedChoice: bounded stand-in for the part of C08 the repository's test schema cannot show: a choice
+// whose case member is a container that holds another choice (container top of the stand-in schema). One intent is
+// set by the transaction, another one is stored (intended store index + running); the case of the intent with the
+// better priority has to be what the device is left with, wherever below the case member its values sit.
+func TestVerifReplayNestedChoice(t *testing.T) {
+	fns := []string{"(*tree.sharedEntryAttributes).getHighestPrecedenceValueOfBranch", "(*tree.sharedEntryAttributes).populateChoiceCaseResolvers"}
+	str := func(x string) []byte {
+		b, _ := proto.Marshal(&sdcpb.TypedValue{Value: &sdcpb.TypedValue_StringVal{StringVal: x}})
+		return b
+	}
+	type leaf struct {
+		path []string
+		val  string
+	}
+	caseA := [][]leaf{
+		{{[]string{"top", "ca", "x"}, "vx"}},
+		{{[]string{"top", "ca", "y"}, "vy"}},
+		{{[]string{"top", "ca", "plain"}, "vp"}},
+		{{[]string{"top", "ca", "x"}, "vx"}, {[]string{"top", "ca", "plain"}, "vp"}},
+	}
+	caseB := []leaf{{[]string{"top", "bl"}, "vbl"}}
+	n := 0
+	for _, newPrio := range []int32{5, 20} {
+		for ai, a := range caseA {
+			for _, newHoldsA := range []bool{true, false} {
+				n++
+				ctx := context.Background()
+				mockCtrl := gomock.NewController(t)
+				scb := vreSchema2(t, mockCtrl)
+				// the transaction's intent and the stored one
+				newLeaves, storedLeaves := a, caseB
+				if !newHoldsA {
+					newLeaves, storedLeaves = caseB, a
+				}
+				var stored, running []*cache.Update
+				for _, l := range storedLeaves {
+					stored = append(stored, cache.NewUpdate(l.path, str(l.val), 10, "stored", 0))
+					running = append(running, cache.NewUpdate(l.path, str(l.val), RunningValuesPrio, RunningIntentName, 0))
+				}
+				ccMock := mockcacheclient.NewMockClient(mockCtrl)
+				testhelper.ConfigureCacheClientMock(t, ccMock, stored, running, []*cache.Update{}, [][]string{})
+				root, err := NewTreeRoot(ctx, NewTreeContext(NewTreeCacheClient("dev1", ccMock), scb, "new"))
+				if err != nil {
+					t.Fatal(err)
+				}
+				fNew, fExisting := NewUpdateInsertFlags(), NewUpdateInsertFlags()
+				fNew.SetNewFlag()
+				for _, l := range newLeaves {
+					if _, err := root.AddCacheUpdateRecursive(ctx, cache.NewUpdate(l.path, str(l.val), newPrio, "new", 0), fNew); err != nil {
+						t.Fatal(err)
+					}
+				}
+				for _, u := range running {
+					if _, err := root.AddCacheUpdateRecursive(ctx, u, fExisting); err != nil {
+						t.Fatal(err)
+					}
+				}
+				root.FinishInsertionPhase(ctx)
+				// the device after the change: running, minus the deletes, plus the updates
+				device := map[string]string{}
+				for _, l := range storedLeaves {
+					device[strings.Join(l.path, "/")] = l.val
+				}
+				dels, err := root.ToProtoDeletes(ctx)
+				if err != nil {
+					t.Fatal(err)
+				}
+				for _, d := range dels {
+					dp := utils.ToXPath(d, false)
+					for k := range device {
+						if k == dp || strings.HasPrefix(k, dp+"/") {
+							delete(device, k)
+						}
+					}
+				}
+				upds, err := root.ToProtoUpdates(ctx, true)
+				if err != nil {
+					t.Fatal(err)
+				}
+				for _, u := range upds {
+					device[utils.ToXPath(u.GetPath(), false)] = u.GetValue().GetStringVal()
+				}
+				want := map[string]string{}
+				winner := storedLeaves
+				if newPrio < 10 {
+					winner = newLeaves
+				}
+				for _, l := range winner {
+					want[strings.Join(l.path, "/")] = l.val
+				}
+				if fmt.Sprint(device) != fmt.Sprint(want) {
+					holder := map[bool]string{true: "a (nested choice below its member)", false: "b"}
+					for _, fn := range fns {
+						fmt.Printf("REPLAY-FAIL fn=%s clause=the_best_priority_decides_the_case input=schema=nested choice,new intent@%d holds case %s,stored intent@10 holds the other case,case a content #%d why=the device is left with %v, the case of the better priority is %v\n",
+							fn, newPrio, holder[newHoldsA], ai, device, want)
+					}
+				}
+				mockCtrl.Finish()
+			}
+		}
+	}
+	for _, fn := range fns {
+		fmt.Printf("REPLAY-CASES fn=%s n=%d\n", fn, n)
+	}
 }
